@@ -19,7 +19,7 @@ RULE = (
     "all eight availability combinations of {numpy, torch, jax}, each in a fresh interpreter (a meta-path finder blocks the absent "
     "libraries; numpy-less environments import torch first and mask numpy afterwards because torch itself needs numpy at import): import "
     "outcome, SUPPORTED_TENSOR_TYPES, DTYPES of all exported classes compared with the union of the per-library modules, BFloat16Tensor, and "
-    "one accepted + one rejected checked call per available library. The selection logic itself (if/elif chains of _dtypes.py and "
+    "one accepted + two rejected checks per available library through each of the four entry points (function, NamedTuple, dataclass, pydantic model). The selection logic itself (if/elif chains of _dtypes.py and "
     "__init__.py, DTYPES expressions of _universal_tensors.py) is regenerated into Lean and decided over all 8 environments. "
     "exhaustive. non-trivial = every environment"
 )
@@ -65,14 +65,37 @@ if out["import"] == "ok":
     from typing import Annotated
     calls = {}
     def try_lib(name, mk, base):
-        @dltype.dltyped()
-        def f(x: Annotated[base, dltype.FloatTensor["a a"]], y: Annotated[base, dltype.IntTensor["a"]]): return None
-        r = []
-        for args in [(mk((2,2),"float32"), mk((2,),"int32")), (mk((2,3),"float32"), mk((2,),"int32")), (mk((2,2),"int32"), mk((2,),"int32"))]:
-            try: f(*args); r.append("ok")
-            except dltype.DLTypeError as e: r.append(type(e).__name__)
-            except Exception as e: r.append("EXC " + type(e).__name__)
-        calls[name] = r
+        # the same two fields through all four entry points (function, NamedTuple, dataclass, pydantic model)
+        import dataclasses, typing
+        X = Annotated[base, dltype.FloatTensor["a a"]]; Y = Annotated[base, dltype.IntTensor["a"]]
+        forms = {}
+        def f(x, y): return None
+        f.__annotations__ = {"x": X, "y": Y}
+        forms["dltyped"] = lambda: dltype.dltyped()(f)
+        def mk_nt():
+            NT = typing.NamedTuple("NT", [("x", X), ("y", Y)])
+            return dltype.dltyped_namedtuple()(NT)
+        forms["namedtuple"] = mk_nt
+        def mk_dc():
+            DC = dataclasses.make_dataclass("DC", [("x", X), ("y", Y)])
+            return dltype.dltyped_dataclass()(DC)
+        forms["dataclass"] = mk_dc
+        def mk_pyd():
+            import pydantic
+            return pydantic.create_model("PM", x=(X, ...), y=(Y, ...))
+        forms["pydantic"] = mk_pyd
+        for form, build in forms.items():
+            r = []
+            try:
+                obj = build()
+            except Exception as e:
+                calls[name + "/" + form] = ["BUILD " + type(e).__name__ + ": " + str(e)[:80]]
+                continue
+            for args in [(mk((2,2),"float32"), mk((2,),"int32")), (mk((2,3),"float32"), mk((2,),"int32")), (mk((2,2),"int32"), mk((2,),"int32"))]:
+                try: obj(x=args[0], y=args[1]); r.append("ok")
+                except dltype.DLTypeError as e: r.append(type(e).__name__)
+                except Exception as e: r.append("EXC " + type(e).__name__)
+            calls[name + "/" + form] = r
     if "numpy" in have:
         import numpy as np
         try_lib("numpy", lambda s, d: np.zeros(s, dtype=d), np.ndarray)
@@ -138,7 +161,7 @@ def custom(run, tier):
             if r != ["ok", "DLTypeShapeError", "DLTypeDtypeError"]:
                 bad(f"checking {libname} arrays: verdicts {r}, expected ['ok', 'DLTypeShapeError', 'DLTypeDtypeError']")
         for libname, present in (("numpy", np_), ("torch", torch_), ("jax", jax_eff)):
-            if present and libname not in res["calls"]:
+            if present and libname + "/dltyped" not in res["calls"]:
                 bad(f"{libname} is importable but no checked call was possible")
     run.coverage["interpreters"] = 8
     run.coverage["exhaustive"] = True
